@@ -532,6 +532,15 @@ func bases() []scenario {
 		only := []ethh.LogSpec{{Address: ethh.Other, Topic: "published", Seq: 6, CL: 1}, {Address: ethh.Core, Topic: "other", Seq: 7, CL: 1}}
 		out = append(out, scenario{Name: fmt.Sprintf("foreign-logs-only/wait=%v", wc), WaitConf: wc, Level: 1,
 			Steps: []step{{Op: "mine", Tx: 1, Block: 101, Logs: only}, {Op: "poll"}, {Op: "head+", N: 2}, {Op: "poll"}, {Op: "reobs", Tx: 1}}})
+		// a foreign contract's log with the message-published topic next to a genuine message, and alone
+		for _, alone := range []bool{false, true} {
+			fl := []ethh.LogSpec{{Address: ethh.Other, Topic: "published", Seq: 6, CL: 1}}
+			if !alone {
+				fl = append(fl, core(5, 1))
+			}
+			out = append(out, scenario{Name: fmt.Sprintf("foreign-contract-same-topic/alone=%v/wait=%v", alone, wc), WaitConf: wc, Level: 1,
+				Steps: []step{{Op: "mine", Tx: 1, Block: 101, Logs: fl}, {Op: "poll"}, {Op: "head+", N: 2}, {Op: "poll"}, {Op: "reobs", Tx: 1}, {Op: "head+", N: 1}, {Op: "poll"}, {Op: "reobs", Tx: 1}}})
+		}
 		// two transactions
 		out = append(out, scenario{Name: fmt.Sprintf("two-txs/wait=%v", wc), WaitConf: wc, Level: 3,
 			Steps: []step{{Op: "mine", Tx: 1, Block: 101, Logs: []ethh.LogSpec{core(5, 1)}}, {Op: "mine", Tx: 2, Block: 102, Logs: []ethh.LogSpec{core(6, 3)}}, {Op: "poll"}, {Op: "head+", N: 1}, {Op: "poll"}, {Op: "head+", N: 3}, {Op: "poll"}}})
